@@ -431,9 +431,17 @@ def firstCharAsIntString (v : String) : String :=
   | b :: _ => toString (if b.toNat < 128 then (b.toNat : Int) else (b.toNat : Int) - 256)
   | [] => "0"
 
-/-- `value_ref_fits_into_type`: note that the *encodingType string* of the enum is compared with "char" -/
-def valueRefFitsIntoType (encType : String) (v : ValidValue) (prim : String) : Bool :=
-  if encType == "char" then valueFitsIntoType (firstCharAsIntString v.value) prim
+/-- `get_enum_primitive_type`: the enum's `encodingType` is a primitive type or names a `<type>` -/
+def getEnumPrimitiveType (types : List Elem) (encType : String) : String :=
+  if !isPrimitive encType then
+    match lookup types encType with
+    | some (.type t) => t.prim
+    | _ => encType
+  else encType
+
+/-- `value_ref_fits_into_type` -/
+def valueRefFitsIntoType (types : List Elem) (encType : String) (v : ValidValue) (prim : String) : Bool :=
+  if getEnumPrimitiveType types encType == "char" then valueFitsIntoType (firstCharAsIntString v.value) prim
   else valueFitsIntoType v.value prim
 
 def vOptionalValue (v : Option String) (prim : String) (p : Path) : R Unit :=
@@ -447,7 +455,7 @@ def vConstantValue (types : List Elem) (p : Path) (t : TypeDef) : R Unit := do
   (match t.valueRef with
    | some r => do
      let (_, enc, v) ← findValueRef types r p
-     need (valueRefFitsIntoType enc v t.prim) .valueRefOutOfRange p
+     need (valueRefFitsIntoType types enc v t.prim) .valueRefOutOfRange p
    | none =>
      if t.prim == "char" then need (!(t.length < (t.constValue.getD "").utf8ByteSize)) .constantTooLong p
      else need (valueFitsIntoType (t.constValue.getD "") t.prim) .valueOutOfRange p)
@@ -563,6 +571,43 @@ def anyOrder (errs : List Diag) : R Unit :=
 /-- `validate_types`: iterates an `unordered_map` -/
 def typesPhase (s : SchemaDef) : R Unit := anyOrder (firstErrors (vRoot s.types) s.types)
 
+/-! ### what `validate_types` left in the contexts of a composite's members -/
+
+/-- `get_primitive_type_size` of the primitive type behind an `encodingType` -/
+def encPrimSize (types : List Elem) (enc : String) : Nat :=
+  if isPrimitive enc then (primSize? enc).getD 0
+  else match lookup types enc with
+    | some (.type t) => (primSize? t.prim).getD 0
+    | _ => 0
+
+mutual
+  /-- `context.size` as the five `validate_encoding` overloads assign it -/
+  def ctxSize (types : List Elem) : Elem → Nat
+    | .type t => t.length * (primSize? t.prim).getD 0
+    | .enum _ enc _ _ _ => encPrimSize types enc
+    | .set _ enc _ _ _ => encPrimSize types enc
+    | .ref _ ty _ _ =>
+      (match lookup types ty with
+       | some t => encSize types t
+       | none => 0)
+    | .composite _ _ elems _ => ctxEnd types 0 elems
+  /-- the running `offset` of `validate_encoding(composite)` behind these members -/
+  def ctxEnd (types : List Elem) (cur : Nat) : List Elem → Nat
+    | [] => cur
+    | e :: rest =>
+      if isConstElem types e then ctxEnd types cur rest
+      else ctxEnd types (e.offset.getD cur + ctxSize types e) rest
+end
+
+/-- `context.offset_in_composite` of the first member called `name` (`find_composite_element`);
+    a constant member has none: `value_or(0)` -/
+def ctxMemberOffset (types : List Elem) (name : String) (cur : Nat) : List Elem → Nat
+  | [] => 0
+  | e :: rest =>
+    if isConstElem types e then (if e.name == name then 0 else ctxMemberOffset types name cur rest)
+    else if e.name == name then e.offset.getD cur
+    else ctxMemberOffset types name (e.offset.getD cur + ctxSize types e) rest
+
 /-! ### level headers -/
 
 /-- `get_level_header_element`: the `<type>` behind member `name` and the member's path -/
@@ -593,10 +638,14 @@ def vLevelHeader (types : List Elem) (user : Path) (hdr : String) (required : Li
 def vDataHeader (types : List Elem) (user : Path) (hdr : String) : R Unit :=
   match lookup types hdr with
   | none => fail .headerUnknown user
-  | some (.composite n _ elems _) => do
+  | some (.composite n o elems a) => do
     vLevelHeaderElement types ["types", n] elems "length"
     let (t, ep) ← levelHeaderElement types ["types", n] elems "varData"
     need (t.length == 0) .varDataLength ep
+    -- `validate_data_header_layout`
+    let (lt, lp) ← levelHeaderElement types ["types", n] elems "length"
+    need (!(ctxMemberOffset types "length" 0 elems != 0
+            || encSize types (.composite n o elems a) != (primSize? lt.prim).getD 0)) .dataHeaderLayout lp
   | some e => fail .headerNotComposite ["types", e.name]
 
 /-! ### members -/
@@ -609,7 +658,7 @@ def vConstantField (types : List Elem) (p : Path) (f : FieldDef) : R Unit :=
     | none => fail .fieldConstantWithoutValueRef p
     | some r => do
       let (_, enc, v) ← findValueRef types r p
-      need (valueRefFitsIntoType enc v f.type) .valueRefOutOfRange p
+      need (valueRefFitsIntoType types enc v f.type) .valueRefOutOfRange p
   else match lookup types f.type with
     | some (.composite _ _ _ _) => fail .compositeFieldConstant p
     | some (.enum _ _ _ _ _) =>
